@@ -172,6 +172,7 @@ func verifFullScenarioX(nExt int, subs []string, behaviours []int, raceTimers bo
 	for g := 1; g < 12; g++ {
 		verifAssert(w.Count("supervisor", "exec", fmt.Sprintf("runtime-%d|/var/runtime/bootstrap", g)) <= 1, "a runtime generation is started at most once")
 	}
+	w.CheckEventGrammar()
 	verifReach("scenario-done")
 }
 
@@ -294,4 +295,51 @@ func VerifFullTwoCallersTimeout() {
 	verifAssert(o.err == nil && o.wr.writes == 1, "the next sequential invocation is served normally")
 	rs := w.RuntimeResponses()
 	verifAssert(string(o.wr.body) == rs[len(rs)-1], "the next sequential invocation receives its own response")
+}
+
+// faults during initialisation
+func VerifFullInitCrash() {
+	// the first runtime exits before its first next; the invocation that was waiting for the init fails,
+	// the following one is served by new processes
+	f := newVerifFull(0, nil, [][]int{{rapid.VbExitEarly}, {rapid.VbRespond}, {rapid.VbRespond}}, 3000)
+	o := f.invoke()
+	verifAssert(o.err != nil, "a runtime that exits during initialisation fails the pending invocation")
+	verifAssert(o.err == ErrInvokeDoneFailed || o.err == ErrInitDoneFailed, "the failure is reported as an init/invoke failure, not a timeout")
+	o2 := f.invoke()
+	rs := f.w.RuntimeResponses()
+	verifAssert(o2.err == nil && o2.wr.writes == 1 && len(rs) > 0 && string(o2.wr.body) == rs[len(rs)-1], "the following invocation is served by new processes")
+	f.w.CheckEventGrammar()
+	verifReach("scenario-done")
+}
+
+func VerifFullInlineInitCrash() {
+	// timeout, then the runtime of the re-initialisation exits before its first next, then recovery
+	f := newVerifFull(0, nil, [][]int{{rapid.VbStall}, {rapid.VbExitEarly}, {rapid.VbRespond}}, 3000)
+	o := f.invoke()
+	verifAssert(o.err == ErrInvokeTimeout, "stall => timeout outcome")
+	o2 := f.invoke()
+	verifAssert(o2.err == ErrInvokeDoneFailed, "a runtime that exits during the re-initialisation fails that invocation")
+	o3 := f.invoke()
+	rs := f.w.RuntimeResponses()
+	verifAssert(o3.err == nil && o3.wr.writes == 1 && string(o3.wr.body) == rs[len(rs)-1], "service is normal again after one failed invocation")
+	f.w.CheckEventGrammar()
+	verifAssert(f.w.CountPrefix("platform", "invokeStart", "") == 3, "each of the three dispatched invocations emitted exactly one invoke-start")
+	verifReach("scenario-done")
+}
+
+func VerifFullInitError() {
+	// the runtime reports init/error itself and exits: the caller receives the runtime's own init-error payload
+	f := newVerifFull(0, nil, [][]int{{rapid.VbInitError}, {rapid.VbRespond}, {rapid.VbRespond}}, 3000)
+	o := f.invoke()
+	verifAssert(o.err != nil, "a reported init error fails the pending invocation")
+	verifAssert(o.wr.writes <= 1, "at most one body")
+	if o.wr.writes == 1 {
+		verifReach("init-error-body")
+		verifAssert(strings.Contains(string(o.wr.body), "boom"), "the body is the runtime's own init-error payload")
+	}
+	o2 := f.invoke()
+	rs := f.w.RuntimeResponses()
+	verifAssert(o2.err == nil && o2.wr.writes == 1 && len(rs) > 0 && string(o2.wr.body) == rs[len(rs)-1], "the following invocation is served by new processes")
+	f.w.CheckEventGrammar()
+	verifReach("scenario-done")
 }
